@@ -1229,7 +1229,7 @@ impl World {
                 let donors = fresh && it.is_some_and(|it| matches!(it.kind, IterKind::Lean | IterKind::LeanSlots));
                 if let (Some((l0, room)), false) = (start, donors) {
                     if b.kind == Kind::Heap && b.cap > room {
-                        let hint = it.and_then(|it| it.hint).unwrap_or(0);
+                        let hint = it.and_then(|it| it.hint.map(|h| it.upper.map_or(h, |u| h.min(u)))).unwrap_or(0);
                         let upper = (ml + ml / 2).max(l0.saturating_add(hint));
                         ctx.eval("C12.upper");
                         if b.cap > upper {
@@ -1364,6 +1364,17 @@ impl World {
         }
         if hash_str_of(x) != hash_str(mx) || fnv_hash(x) != fnv_hash(mx.as_str()) || word_hash(x) != word_hash(mx.as_str()) {
             bad("C17.hash", format!("hash of {mx:?} differs from the hash of the same str (SipHash, FNV, or a word-at-a-time hasher)"));
+        }
+        // hashing as an element of a slice / Vec / tuple (Hash::hash_slice), with an empty element in the middle
+        {
+            let empty = lean_string::LeanString::new();
+            let ls = [x.clone(), empty, y.clone()];
+            let ss = [mx.as_str(), "", my.as_str()];
+            let vl: Vec<lean_string::LeanString> = ls.to_vec();
+            let vs: Vec<String> = ss.iter().map(|s| s.to_string()).collect();
+            if fnv_hash(&ls[..]) != fnv_hash(&ss[..]) || word_hash(&ls[..]) != word_hash(&ss[..]) || fnv_hash(&vl) != fnv_hash(&vs) || fnv_hash(&(x, y)) != fnv_hash(&(mx.as_str(), my.as_str())) {
+                bad("C17.hash", format!("hash of the slice / Vec / tuple [{mx:?}, \"\", {my:?}] differs from the hash of the same strs"));
+            }
         }
         let fx: [String; 12] = [
             format!("{x}"),
